@@ -76,6 +76,7 @@ func VerifRun_C08e() {
 	// (the third version of b reads a name nobody defines: going from "y" to "z" changes a diagnostic only in its text)
 	versB := []string{"local r = x\nq = r\n", "local r = y\nq = r\n", "local r = z\nq = r\n"}
 	cur := []string{versA[0], versB[0]}
+	disk := []string{versA[0], versB[0]} // what the file holds on disk
 	verifVFSPut(a, []byte(cur[0]))
 	verifVFSPut(b, []byte(cur[1]))
 	c08view = map[string]string{}
@@ -86,7 +87,7 @@ func VerifRun_C08e() {
 	for k := 0; k < verifParam("STEPS"); k++ {
 		fi := verifConcretize(verifRange("file", 0, 1))
 		f := files[fi]
-		op := verifConcretize(verifRange("op", 0, 4))
+		op := verifConcretize(verifRange("op", 0, 5))
 		if gone[fi] && op != 4 {
 			verifAssume(false) // nothing else happens to a file that does not exist
 		}
@@ -110,6 +111,7 @@ func VerifRun_C08e() {
 		case 1: // the user saves
 			txt := cur[fi]
 			verifVFSPut(f, []byte(txt))
+			disk[fi] = txt
 			_ = l.TextDocumentDidSave(ctx, lsp.DidSaveTextDocumentParams{TextDocument: lsp.TextDocumentIdentifier{URI: uri}, Text: &txt})
 			unsaved[fi] = false
 		case 2: // the file changes on disk behind the editor (e.g. git checkout) and the watcher reports it
@@ -123,6 +125,7 @@ func VerifRun_C08e() {
 				txt = versB[verifConcretize(verifRange("ver", 0, 2))]
 			}
 			cur[fi] = txt
+			disk[fi] = txt
 			verifVFSPut(f, []byte(txt))
 			_ = l.WorkspaceChangeWatchedFiles(ctx, lsp.DidChangeWatchedFilesParams{Changes: []lsp.FileEvent{{URI: uri, Type: lsp.Changed}}})
 		case 4: // the file is deleted outside the editor / comes back (e.g. a branch switch), reported by the watcher
@@ -137,6 +140,13 @@ func VerifRun_C08e() {
 				_ = l.WorkspaceChangeWatchedFiles(ctx, lsp.DidChangeWatchedFilesParams{Changes: []lsp.FileEvent{{URI: uri, Type: lsp.Deleted}}})
 			}
 			gone[fi] = !gone[fi]
+		case 5: // the user closes the document and discards the unsaved edits: the file on disk is what counts again
+			if !unsaved[fi] {
+				verifAssume(false)
+			}
+			_ = l.TextDocumentDidClose(ctx, lsp.DidCloseTextDocumentParams{TextDocument: lsp.TextDocumentIdentifier{URI: uri}})
+			cur[fi] = disk[fi]
+			unsaved[fi] = false
 		case 3: // the user closes the (saved) document and opens it again
 			if unsaved[fi] {
 				verifAssume(false)
